@@ -53,6 +53,27 @@ def run(tier: str, seed: int, reg: Any, jobs: int = 16) -> list:
                 got = (flags & 3, (flags >> 4) & 3, (flags >> 8) & 0xF)
                 if got != want:
                     problems.append(f"container {ci}: flags word {flags:#x} decodes to (set, used id, revoke) {got}, configuration says {want}")
+            # a valid flags word with a revoke-mask / high flag bit must not turn the version records into errors
+            try:
+                from spsdk.utils.verifier import VerifierResult
+
+                cont = back.ahab_containers[0]
+                saved = cont.flags
+                cont.flags = saved | 0x100
+                recs = cont._verify("container")
+                cont.flags = saved
+
+                def walk(v: Any) -> list:
+                    out = list(v.records)
+                    for ch in getattr(v, "child_verifiers", []) or []:
+                        out += walk(ch)
+                    return out
+
+                for r in walk(recs):
+                    if r.name in ("SW version", "Fuse version") and r.result == VerifierResult.ERROR:
+                        problems.append(f"valid container (flags {saved | 0x100:#x}, sw {cont.sw_version}, fuse {cont.fuse_version}) reported: {r.name}: {r.value}")
+            except AttributeError:
+                pass
             if problems and len(fails) < 4:
                 fails.append({"inputs": {"config": os.path.relpath(cfgp, repo)}, "detail": "; ".join(problems), "obligation": "ahab-build-parse-verify"})
         except Exception as e:  # pylint: disable=broad-except
